@@ -58,6 +58,9 @@ struct Sess {
     duplex: bool,
     /// (transport frame index in A->B direction, kind)
     tamper: Option<(usize, TamperKind)>,
+    /// the reader only starts once everything has been written (the carrier holds it all): the
+    /// first socket read fills the whole read-ahead window
+    late_reader: bool,
 }
 
 impl Sess {
@@ -67,6 +70,7 @@ impl Sess {
             "cfg_a": cfg_json(&self.cfg_a), "cfg_b": cfg_json(&self.cfg_b), "capacity": self.capacity,
             "sizes": self.sizes, "rbuf": self.rbuf, "flush_each": self.flush_each, "duplex": self.duplex,
             "tamper": self.tamper.as_ref().map(|(i, k)| json!({"frame": i, "kind": tamper_json(k)})),
+            "late_reader": self.late_reader,
         })
     }
     fn from_json(v: &Value) -> Option<Sess> {
@@ -86,6 +90,7 @@ impl Sess {
             } else {
                 Some((v["tamper"]["frame"].as_u64()? as usize, tamper_from(&v["tamper"]["kind"])?))
             },
+            late_reader: v["late_reader"].as_bool().unwrap_or(false),
         })
     }
     fn descriptor(&self) -> String {
@@ -445,7 +450,14 @@ async fn session(s: Sess) -> Outcome {
     let (a_r, a_w) = sock_a.split();
     let (b_r, b_w) = sock_b.split();
     let w_ab = tokio::spawn(writer(a_w, seed_ab, s.sizes.clone(), s.flush_each));
-    let r_ab = tokio::spawn(reader(b_r, seed_ab, s.rbuf));
+    let (late, rbuf) = (s.late_reader, s.rbuf);
+    let r_ab = tokio::spawn(async move {
+        if late {
+            // virtual time: elapses once the writer has nothing left to do
+            tokio::time::sleep(Duration::from_secs(2)).await;
+        }
+        reader(b_r, seed_ab, rbuf).await
+    });
     let dup = if s.duplex {
         let mut sizes = s.sizes.clone();
         sizes.reverse();
@@ -568,6 +580,54 @@ fn run_one(rep: &mut Report, rt: &tokio::runtime::Runtime, s: &Sess) {
     check(rep, s, res);
 }
 
+/// The read-ahead window alignment sessions (see family 1b in `run`) for another check: only
+/// panics are judged here (C19: bytes from the network never panic a decoder; the frame length
+/// prefix of the Noise transport is one). Returns the number of sessions run.
+pub fn window_alignment_panics(ctx: &Ctx, rep: &mut Report, prop: &str) -> usize {
+    let rt = runtime();
+    let mut rng = ctx.rng("c02-align");
+    let mut idx = 0u64;
+    let mut n = 0;
+    for ra in 1..=6usize {
+        for d in 0..24usize {
+            idx += 1;
+            if !ctx.mine(idx) {
+                continue;
+            }
+            let mut s = random_sess(&mut rng, 0);
+            s.read_ahead = ra;
+            s.cfg_a = EndCfg::default();
+            s.cfg_b = EndCfg::default();
+            s.capacity = 0;
+            s.rbuf = 1 << 20;
+            s.flush_each = true;
+            s.duplex = false;
+            s.late_reader = true;
+            let mut sizes = vec![65519usize; ra - 1];
+            sizes.push(65517 - 2 * (ra - 1) - d);
+            sizes.push(65519);
+            sizes.push(10);
+            s.sizes = sizes;
+            let _ = crate::common::take_panics();
+            let s2 = s.clone();
+            let res = guarded(|| rt.block_on(detect_deadlock(Duration::from_secs(24 * 3600), session(s2))));
+            n += 1;
+            let mut panics = crate::common::take_panics();
+            if let Err(p) = res {
+                panics.push(p);
+            }
+            for p in panics {
+                rep.violation(
+                    format!("{prop}/panic/noise-transport-read/{}", panic_site(&p)),
+                    format!("{p}; read-ahead {ra}, length prefix of a maximum-size frame {d} bytes before the end of the read-ahead window"),
+                    json!({"target": "noise-window-alignment", "session": s.to_json()}),
+                );
+            }
+        }
+    }
+    n
+}
+
 fn boundary_sizes() -> Vec<usize> {
     vec![
         1, 2, 15, 16, 17, 255, 4096, 65518, 65519, 65520, 65521, 65535, 65536, 2 * FRAME - 1, 2 * FRAME,
@@ -607,6 +667,7 @@ fn random_sess(rng: &mut Rng, budget: usize) -> Sess {
         flush_each: rng.bool(),
         duplex: rng.chance(0.3),
         tamper: None,
+        late_reader: false,
     }
 }
 
@@ -678,6 +739,34 @@ pub fn run(ctx: &Ctx) -> Report {
                 s.cfg_b = EndCfg::default();
                 s.capacity = 0;
             }
+            run_one(&mut rep, &rt, &s);
+        }
+    }
+    // 1b. read-ahead window alignment: everything is written before the reader starts, so the first
+    // socket read fills the whole window (read_ahead x 65535 bytes); the length prefix of a
+    // maximum-size frame is placed at each of the last 24 byte positions of the window
+    for ra in 1..=6usize {
+        for d in 0..24usize {
+            idx += 1;
+            if !ctx.mine(idx) {
+                continue;
+            }
+            let mut s = random_sess(&mut rng, 0);
+            s.read_ahead = ra;
+            s.cfg_a = EndCfg::default();
+            s.cfg_b = EndCfg::default();
+            s.capacity = 0;
+            s.rbuf = 1 << 20;
+            s.flush_each = true;
+            s.duplex = false;
+            s.late_reader = true;
+            let filler = 65517 - 2 * (ra - 1) - d;
+            let mut sizes = vec![65519usize; ra - 1];
+            sizes.push(filler);
+            sizes.push(65519);
+            sizes.push(10);
+            s.sizes = sizes;
+            rep.hit("window_alignment_sessions");
             run_one(&mut rep, &rt, &s);
         }
     }
